@@ -100,6 +100,22 @@ if os.path.exists(os.path.join(HERE, "lean", "Ivy", "L3", "InotifyProofs.lean"))
         technique="Lean 4 invariant + trace-specification proofs over all buffers and reaction programs + log-replay correspondence",
         design="§7 C20")
 
+if os.path.exists(os.path.join(HERE, "lean", "Ivy", "L3", "PopenProofs.lean")):
+    CLAIMED["C19"] = dict(
+        text="Lean 4 theorems (Ivy/Props/C19.lean, 17) over a model of iv_popen.c: the running-child record (attached/detached, timer, kill count, wait "
+             "interest through its interface) x the child's fate as environment, and an abstract descriptor table for the child/parent wiring. For every "
+             "reachable state (every action sequence = every fate and timing): no fault (no use of the freed record, no double (un)registration); after close "
+             "the signals are TERM for the first MAX_SIGTERM_COUNT firings then KILL, SIGNAL_INTERVAL apart, the first at once (constants regenerated from the "
+             "source and pinned by a theorem); no kill() after the terminal status was collected; the record is freed exactly once and holds no loop object then; "
+             "a fair loop releases everything within 7 rounds; child 0/1/2 wiring for 'r' and 'w' and the failure paths leave no descriptor behind. Tied to the "
+             "current iv_popen.c by replaying logs of the real file under the deterministic scheduler with virtual children/time (white-box include; the child "
+             "side runs against a virtual descriptor table), plus a real-kernel smoke run.",
+        note="Trusted: Lean kernel; standard axioms; the T-sched engine and mt_popen extension; iv_wait used through its interface (C11); kernel contract (kill on an "
+             "unreaped child succeeds, SIGKILL ends it, pipe/open return unused descriptors); valid use incl. descriptors 0/1/2 open at submit (witness of what "
+             "happens otherwise: corpus/C19/f1-stdin-closed-in-parent.scn); malloc/open failure not modelled.",
+        technique="Lean 4 reachability invariant over all action sequences + log-replay correspondence under a deterministic scheduler",
+        design="§7 C19")
+
 NOT_YET = "check not built yet in this round; planned per DESIGN.md §7 (Lean model + theorems + correspondence)"
 
 checks = []
